@@ -7,7 +7,7 @@ META = {
     text='TLC checks exhaustively (3 goroutines x 2 calls, all interleavings of lock/check/set/close/unlock) that the implementation-shaped model of '
          'Ack/Nack refines the three-state first-wins machine and rejects the no-mutex / no-guard mutants; the real code is bound to the same abstract '
          'machine by trace validation: every sequential history up to the tier bound on four kinds of message, random concurrent histories and forced '
-         'overlaps are recorded and TLC searches a linearization for each',
+         'overlaps are recorded and TLC searches a linearization for each. A hammer class (60 000 / 1.5 M rounds of 6 goroutines issuing the same call and reading the channel at once) logs only anomalous rounds, as ordinary histories',
     design_ref='DESIGN.md 6/C03',
     note='Linearizability of recorded histories is decided exactly by TLC; which concurrent histories occur depends on the Go scheduler except for the '
          'forced overlaps (gate inside the critical section). Bounded: sequences of length 5 (quick) / 8 (thorough).',
@@ -17,7 +17,7 @@ META = {
          'no error and outputs accepted, never before Publish returned, never overriding the handler) and TLC checks its invariants/action properties '
          'for 2 concurrent messages and rejects three protocol mutants. A real Router with scripted subscriber, handler chain and publisher is run on '
          'the exhaustive behaviour matrix and on concurrent triples with forced schedules; the observable trace (chain entry/exit, Publish arguments, '
-         'settlement sampled inside Publish, final settlement) is validated by TLC against the same spec',
+         'settlement sampled inside Publish, final settlement) is validated by TLC against the same spec. A handler goroutine that settles the message while the router\'s own Ack/Nack is parked inside its critical section must lose (hlate); a message found both acked and nacked is rejected',
     design_ref='DESIGN.md 6/C02',
     note='Bounded: <=2 outputs, <=3 messages in flight. The router-internal settlement step is unlogged (silent step of the trace spec).',
     technique='TLA+ protocol spec checked by TLC + trace validation of real Router runs over an exhaustive behaviour matrix'),
@@ -42,7 +42,7 @@ META = {
     text='Retry.tla is the call-level state machine of the middleware (attempt bound, back-off lower bound per retry with rational multiplier and randomization, '
          'hook sequence, first success wins, last error kept, early exit only on context end / MaxElapsedTime); TLC explores it over an abstract time line with '
          'invariants on the attempt history. The real middleware runs around a scripted handler over a grid of configurations and outcome scripts; attempt '
-         'start/end times, hook arguments, cancel instants and the result are validated by TLC against the same state machine',
+         'start/end times, hook arguments, cancel instants and the result are validated by TLC against the same state machine. Several messages going concurrently through ONE wrapped handler must each see their own back-off sequence',
     design_ref='DESIGN.md 6/C12',
     note='Timing rules are one-sided (lower bounds on waits, generous margins after context end); cenkalti/backoff is observed only through the waits and hook arguments.',
     technique='TLA+ state machine of the retry loop + TLC trace validation of timed event traces from the real middleware'),
@@ -59,7 +59,7 @@ META = {
          'TLC checks, for every chain up to length 2 (3 in thorough) and every script up to length 2, that the effect ends with the call, the deadline is visible only '
          'during it, error-neutral chains are transparent and do not change Retry\'s attempt count, nothing escapes an outer Recoverer; the legacy Timeout design is '
          'rejected. Real chains are run on scripted handlers and each call (what the handler observed at every invocation, result, message state afterwards, delay '
-         'metadata) is validated by TLC against Run(); Throttle start times are validated against the token rule',
+         'metadata) is validated by TLC against Run(); Throttle start times are validated against the token rule. Beyond the statement: the CircuitBreaker middleware is followed through closed / open / half-open (CircuitBreaker.tla: fail fast without invoking the handler while open, trials after the timeout with exact clock bounds, maxreq successes close, any failure re-opens, admission limit of half-open trials); Throttle is also driven with cancelled and short-deadline messages; handler errors that are context errors are errors like any other',
     design_ref='DESIGN.md 6/C19',
     note='Retry uses zero intervals here (timing is C12). DelayOnError is exercised on fail^k sequences only (no failure after a success on the same message).',
     technique='TLA+ operator algebra of middlewares evaluated by TLC, used as oracle in trace validation of real compositions'),
@@ -68,13 +68,13 @@ META = {
          'exhaustively (volatile and persistent configurations) that every (message, subscription) pair gets at most one sender, deliveries repeat only after a Nack, only '
          'own-topic messages arrive and that in terminal states every live subscription acked everything it was owed; persisting outside the lock is rejected. Real '
          'GoChannels are driven through small configurations exhaustively, forced Publish/Subscribe overlaps and random programs; histories (publish/subscribe start and end, '
-         'every receipt with content, copy freshness and context, every Ack/Nack) are validated by TLC against GoChannelAbs.tla',
+         'every receipt with content, copy freshness and context, every Ack/Nack) are validated by TLC against GoChannelAbs.tla. Multi-message Publish is part of the implementation-shaped model (one critical section per message; persisting the whole batch with the first message is rejected: OneSenderPerPair) and of the scenarios (Subscribe forced between two messages of a batch)',
     design_ref='DESIGN.md 6/C04', note="The abstract oracle (GoChannelAbs.tla) constrains only API-observable events; linearization points are searched by TLC (volatile mode) or taken eagerly where their order is provably immaterial (persistent mode). Bounded: design model 2 publishers x 2 subscriptions x 2 messages; harness programs up to 14 subscriptions.", technique='TLC model checking of an implementation-shaped TLA+ model + trace validation of recorded histories against an abstract TLA+ spec'),
  'C05': dict(
     text='The design model proves OneUnsettled, BlockingReturn and absence of stuck calls incl. the consumer-republishes-with-pending-Subscribe schedule (the legacy design that '
          'held the locks while waiting is rejected: dead-lock found in 135 states), with PubsReturn under fairness. The abstract trace spec makes a receipt with another '
          'unsettled message, and a blocking Publish returning before every certainly-registered subscription acked, unexplainable; consumers that try to read ahead, never ack, '
-         'nack, or republish are run against buffers 0, 1, 5',
+         'nack, or republish are run against buffers 0, 1, 5. In blocking mode the messages of one Publish call are handed over one after the other (BatchOrder in GoChannelImpl, BatchOrdered in the abstract oracle; handing the batch over before waiting is rejected); blocking fan-out while other subscriptions are cancelled; a Subscribe to the very topic whose blocking Publish waits for an ack',
     design_ref='DESIGN.md 6/C05', note="The abstract oracle (GoChannelAbs.tla) constrains only API-observable events; linearization points are searched by TLC (volatile mode) or taken eagerly where their order is provably immaterial (persistent mode). Bounded: design model 2 publishers x 2 subscriptions x 2 messages; harness programs up to 14 subscriptions.", technique='TLC model checking (safety + liveness) of the locking design + trace validation of recorded histories'),
  'C07': dict(
     text='Design model with Close and cancel: NoPanic (close of closed / send on closed channel, nil-map write, subscriber not found), AfterClose, NoStuckCall over >1M states '
@@ -87,7 +87,7 @@ META = {
     text='Persistent configuration of the design model: OneSenderPerPair and terminal completeness for all interleavings of 2 publishers and a late subscription; the '
          'persist-outside-the-lock mutant is rejected. Harness: subscriptions before/during/after publishes (single and batch), forced overlaps at every hook point between '
          'persisting, sending, locking, replaying, registering, random programs and prime-sized backlogs (up to 4099 in thorough); the abstract spec owes each (subscription, '
-         'message) pair exactly once, a second receipt without Nack or a missing one at quiescence is rejected',
+         'message) pair exactly once, a second receipt without Nack or a missing one at quiescence is rejected. Multi-message Publish in the model (batch persisted with the first message is rejected); a first subscription racing publishers on a topic without subscription (conformance and black box)',
     design_ref='DESIGN.md 6/C11', note="The abstract oracle (GoChannelAbs.tla) constrains only API-observable events; linearization points are searched by TLC (volatile mode) or taken eagerly where their order is provably immaterial (persistent mode). Bounded: design model 2 publishers x 2 subscriptions x 2 messages; harness programs up to 14 subscriptions.", technique='TLC model checking of replay/registration atomicity + trace validation with an exactly-once oracle'),
  'C06': dict(
     text='RouterLifecycle.tla models Run/RunHandlers/the decorator pump/the receive loop/handleMessage/handleClose/Close with its two waits and the time-out for one handler, '
@@ -95,7 +95,7 @@ META = {
          'the four legacy designs (concurrent waits, ctx.Done branch not closing the subscriber, second Close returning nil at once, Started before stopFn). A real Router is '
          'driven with the message parked at every point of its path when Close arrives (scripted subscriber and GoChannel, 1..8 closers, 1..3 handlers), with panicking and '
          'time-out-exceeding handlers and repeated Close; handler start/end, every Close/Run return with the settlement of all emitted messages sampled at that instant, '
-         'subscriber/publisher Close calls are validated against RouterCloseAbs.tla',
+         'subscriber/publisher Close calls are validated against RouterCloseAbs.tla. Close calls are served one after the other and a served call returns within CloseTimeout + 1.5 s whether or not the handlers finished (InTime), also with a subscriber whose Close() drains',
     design_ref='DESIGN.md 6/C06',
     note='subscriber.Close() is checked at quiescence, not at the instant Close returns (the statement does not require it to be synchronous). Design model: one handler.',
     technique='TLC model checking of the shutdown protocol + forced-schedule trace validation against an abstract graceful-close spec'),
@@ -105,8 +105,11 @@ META = {
          'often and however concurrently RunHandlers is called, Running() only after all handlers registered before Run subscribed, Stop/Stopped usable once Started() closed, '
          'Stop affects only that handler (and those sharing its publisher), self-close + Run nil when the context is cancelled or all handlers stopped, second Run errors. Real '
          'Routers execute targeted and random lifecycle programs (incl. a gate right after close(startedCh), concurrent RunHandlers with slow Subscribe, a second Run while the '
-         'first is held inside Subscribe) and the event traces are validated by TLC',
-    design_ref='DESIGN.md 6/C10',
+         'first is held inside Subscribe, Run without handlers with the first handler added later, RunHandlers with a context of its own, user Close, plugins, duplicate names) '
+         'and the event traces are validated by TLC. RouterWatcher.tla models the self-close watcher against AddHandler / RunHandlers / Stop (SelfClose under fairness; the unbuffered-signal '
+         'design of the repaired defect and a signal-before-Add mutant are rejected), and TLC enumerates every user-action word that model admits (115 for two handlers), which the driver '
+         'executes against the real Router',
+    design_ref='DESIGN.md 2 (specification -> implementation), 6/C10',
     note='Handlers are not added concurrently with the router shutting down (as the quantifier says). Probe messages time out after 700 ms.',
     technique='TLC model checking of the start-up protocol + trace validation of lifecycle programs against an abstract API spec'),
  'C01': dict(
